@@ -44,4 +44,4 @@ Deliver into {out}/ :
   patch.diff   — `git -C {wt} diff` of your change (source only, no demo/test files)
   demo/        — the demonstration (files + exact run commands in demo/README.md; if the demo is a test file that must live inside a package directory, put it in demo/ with its intended path written in README.md)
   notes.md     — which clause of the property it breaks, what exactly is needed for the breakage to manifest, why existing tests do not notice, and the before/after `ok` package lists showing the suite still passes.
-Verify everything yourself: suite before/after, demo fails with the patch and passes without it (use `git -C {wt} stash` / `stash pop` or a second worktree). When finished, remove your worktree: `git -C /repo worktree remove --force {wt}` (keep {out}). Your final message: a 5-line summary (what you changed, how it manifests, commands).""")
+Verify everything yourself: suite before/after, demo fails with the patch and passes without it (NEVER use `git stash` — the stash is shared by all worktrees of /repo and other people are working in parallel; instead use `git -C {wt} diff > {out}/p.diff; git -C {wt} checkout -- .; <run pristine>; git -C {wt} apply {out}/p.diff`). When finished, remove your worktree: `git -C /repo worktree remove --force {wt}` (keep {out}). Your final message: a 5-line summary (what you changed, how it manifests, commands).""")
